@@ -96,7 +96,9 @@ impl FileLock {
         // can be checked for the locks held by other processes.
         #[cfg(unix)]
         if let Err(e) = &file {
-            if e.kind() == io::ErrorKind::PermissionDenied {
+            // the same applies to a program that is being executed (ETXTBSY)
+            let busy = e.raw_os_error() == Some(libc::ETXTBSY);
+            if e.kind() == io::ErrorKind::PermissionDenied || busy {
                 if let Ok(file) = File::open(&path_buf) {
                     return match Self::fcntl_test_lock(&file) {
                         Ok(()) => Ok(FileLock { file }),
